@@ -431,7 +431,7 @@ func (s *Spec) analyzeSchema(name string, schema *spec.Schema, prefix string) {
 	schRef := SchemaRef{
 		Name:     name,
 		Schema:   schema,
-		Ref:      spec.MustCreateRef("#" + refURI),
+		Ref:      spec.MustCreateRef("#" + strings.ReplaceAll(refURI, "%", "%25")), // a literal '%' must be escaped in a URI fragment
 		TopLevel: prefix == "/definitions",
 	}
 
